@@ -174,11 +174,13 @@ def part_a(rep, statuses):
 
 
 # ---------------------------------------------------------------- part B: generated method
-SCHEMA = "type Query { a: Int! b(data: Int, query: Int, variables: Int, response: Int): Int! }\ntype Mutation { c(Data: Int, Query: Int): Int! }\n"
+SCHEMA = "scalar Upload\ntype Query { a: Int! b(data: Int, query: Int, variables: Int, response: Int): Int! }\ntype Mutation { c(Data: Int, Query: Int): Int! up(f: Upload!, n: Int): Int! }\n"
 QUERY = ("query GetA { a }\n"
          "query GetB($data: Int, $query: Int, $variables: Int, $response: Int) { a: b(data: $data, query: $query, variables: $variables, response: $response) }\n"
-         "mutation SetC($Data: Int, $Query: Int) { a: c(Data: $Data, Query: $Query) }\n")
-METHODS = [("get_a", {}), ("get_b", {"data": 41, "query": 42, "variables": 43, "response": 44}), ("set_c", {"data": 51, "query": 52})]
+         "mutation SetC($Data: Int, $Query: Int) { a: c(Data: $Data, Query: $Query) }\n"
+         "mutation UpFile($f: Upload!, $n: Int) { a: up(f: $f, n: $n) }\n")
+METHODS = [("get_a", {}), ("get_b", {"data": 41, "query": 42, "variables": 43, "response": 44}), ("set_c", {"data": 51, "query": 52}),
+           ("up_file", {"f": "<UPLOAD>", "n": 1})]   # the multipart request path
 CONFIGS = [
     ("async", {"async_client": True, "opentelemetry_client": False}, "none"),
     ("sync", {"async_client": False, "opentelemetry_client": False}, "none"),
@@ -200,10 +202,14 @@ def part_b_case(case):
         mod, mods = genpkg.import_package(d, pkg)
         exc_mod = mods["exceptions"]
         is_async = clients.BUNDLED[kind][2]
-        plan = [(m, s_, None) for m in METHODS for s_ in (statuses if m[0] == "get_a" else statuses[2:5])]
+        some = statuses[2:5] + [x for x in (300, 404, 500) if x in statuses and x not in statuses[2:5]]
+        plan = [(m, s_, None) for m in METHODS for s_ in (statuses if m[0] == "get_a" else some)]
         plan += [(METHODS[0], s_, h) for s_ in HEADER_STATUSES if s_ in statuses or len(statuses) > 1 for _, h in RESPONSE_HEADERS[1:]]
         for (mname, mkw), status, hdrs in plan:
-            Model = {"get_a": mod.GetA, "get_b": mod.GetB, "set_c": mod.SetC}[mname]
+            Model = {"get_a": mod.GetA, "get_b": mod.GetB, "set_c": mod.SetC, "up_file": mod.UpFile}[mname]
+            if mname == "up_file":
+                import io
+                mkw = dict(mkw, f=mod.Upload(filename="f.txt", content=io.BytesIO(b"data"), content_type="text/plain"))
             for bname, body in body_classes():
                 sent = {}
 
